@@ -19,7 +19,7 @@ func registerPW() {
 		},
 		Shrink:  pw.Shrink,
 		OneShot: true,
-		Timeout: 10 * time.Second,
+		Timeout: 20 * time.Second,
 	}
 	pwSim := []string{"SimWriter / SimReader / SimPipe (chunking, write faults, bounded pipe)", "task scheduler with schedule tape (concurrent Pack tasks, Chdir task, Pack||Unpack over the pipe)", "tree builder (the model tree is the generated node list)", "reference ignore matcher (model.Excluded)", "expected entry list / round-trip comparison"}
 	plans["C02"] = &Plan{ID: "C02", Level: "exploration",
